@@ -1,5 +1,6 @@
 import Bch.Drive.C09
 import Bch.Model.MerkleSelect
+import Bch.Spec.Script
 namespace Bch.Drive.C10
 open Bch Bch.Drive Bch.Model Bch.Model.BloomTx
 
@@ -40,6 +41,39 @@ def splitExt (impl : String) : Option (String × String) :=
   | [e, r] => if e.startsWith "EXT " then some ((e.drop 4).toString, r) else none
   | _ => none
 
+def rawInScript (i : String) : Option Bytes :=
+  match i.splitOn ":" with
+  | [_, _, sc] => bytes? sc
+  | _ => none
+
+/-- raw scripts of one transaction of a case line (`outs '!' ins`, see `fmtTx` in harness/c09.go) -/
+def rawScripts (s : String) : Option (List Bytes × List Bytes) :=
+  match s.splitOn "!" with
+  | [outs, ins] => do
+    let outs ← if outs == "_" then some [] else (outs.splitOn ",").mapM bytes?
+    let ins ← if ins == "_" then some [] else (ins.splitOn ",").mapM rawInScript
+    pure (outs, ins)
+  | _ => none
+
+/-- the answers of the external library `txscript` that arrive with the case (`EXT`: pushed data of every script, and
+    whether an output script is pay-to-pubkey / multisig) against the independent specification `Spec/Script.lean`
+    evaluated on the RAW scripts of the case line. "" when all agree, otherwise a description of the first mismatch. -/
+def extVsSpec (rawTxs : String) (txs : List Tx) : String :=
+  if rawTxs == "-" then "" else
+  let raws := (rawTxs.splitOn "|").map rawScripts
+  if raws.length != txs.length then "ext-vs-spec: transaction count" else
+  let bad := (raws.zip txs).zipIdx.filterMap fun ((raw, tx), j) =>
+    match raw with
+    | none => some s!"ext-vs-spec: case line of tx {j} not parsable"
+    | some (outs, ins) =>
+      if outs.length != tx.outs.length || ins.length != tx.ins.length then some s!"ext-vs-spec: script count of tx {j}"
+      else if (outs.zip tx.outs).any fun (sc, o) => !Spec.Script.agrees sc o.pushes o.isPubKeyOrMultisig then
+        some s!"ext-vs-spec: txscript and Spec/Script.lean disagree on an output script of tx {j}"
+      else if (ins.zip tx.ins).any fun (sc, i) => Spec.Script.pushedData sc != i.pushes then
+        some s!"ext-vs-spec: txscript and Spec/Script.lean disagree on an input script of tx {j}"
+      else none
+  bad.headD ""
+
 def comb (l r : Bytes) : Bytes := Prim.sha256d (l ++ r)
 def zero32 : Bytes := List.replicate 32 0
 
@@ -58,18 +92,22 @@ def extractTok (m : Merkle.Msg Bytes) : String :=
 def sortNats (l : List Nat) : List Nat := l.mergeSort
 
 def run : Runner
-  | "txm", [_, b, n, t, f, _txs], impl => do
+  | "txm", [_, b, n, t, f, rawTxs], impl => do
     let m ← C09.parseMsg b n t f
     let (ext, _) ← splitExt impl
     let txs ← (ext.splitOn "|").mapM parseExtTx
+    let mism := extVsSpec rawTxs txs
+    if mism != "" then return { model := mism }
     let (fin, res) := txs.foldl (fun (st : Bloom.Filter × List String) tx =>
         let (f', r) := matchTxAndUpdate bloomOps st.1 tx
         (f', tokB r :: st.2)) (some m, [])
     pure { model := s!"EXT {ext} RES {",".intercalate res.reverse} {C09.bitsTok fin}" }
-  | "blk", [_, b, n, t, f, _txs], impl => do
+  | "blk", [_, b, n, t, f, rawTxs], impl => do
     let fm : Bloom.Filter ← if b == "nil" then some none else (C09.parseMsg b n t f).map some
     let (ext, implRes) ← splitExt impl
     let txs ← if ext == "-" then some [] else (ext.splitOn "|").mapM parseExtTx
+    let mism := extVsSpec rawTxs txs
+    if mism != "" then return { model := mism }
     let block := txs.toArray
     let s := GetMatchedIndices bloomOps bloomSame 3000000 block fm
     -- the reference (unrepaired, exponential) scan, when it is affordable: the repaired scan must agree with it
